@@ -10,7 +10,7 @@ from .. import labelled as LB
 ID = "C03"
 LEVEL = "proof"
 PROP_FILE = "Properties/C03.v"
-PROOF_FILES = ["Model/Uspfs.v", "Model/Thl.v", "Model/Recon.v", "Model/Entry.v", "Proofs/EntryProofs.v", "Proofs/LabelCostProofs.v"]
+PROOF_FILES = ["Proofs/UspfsFinal.v", "Proofs/UspfsProofs.v", "Proofs/ThlProofs.v", "Model/Uspfs.v", "Model/Thl.v", "Model/Recon.v", "Model/Entry.v", "Proofs/EntryProofs.v", "Proofs/LabelCostProofs.v"]
 TRUSTED = ["model Model/Uspfs.v of _compute_gain_sets/_compute_lca_sets/_compute_uspfs_entry/_compute_uspfs_table/_decode_uspfs_table/_uspfs (after fix D6), on the Entry (C16) and evaluator (C06) models"]
 ASSUMES = ["binary trees", "cost vectors with spe + 2*sloss <= dup + 2*floss for the optimality clauses (F-COHERENCE)"]
 RULE = ("inputs = (species shape, object shape, leaf species, unordered leaf syntenies over <=4 families, coherent cost vector incl. sloss=0); "
@@ -202,13 +202,16 @@ def extra(ctx):
     ctx.notes.append(f"specification sample: {n} random inputs checked against the brute-force optimum over all labellings, {bad} failures")
 
 
-TECHNIQUE = "executable Coq model of the unordered solver (on proved Entry/evaluator layers) tied to the code by table-level correspondence; optimality theorem not yet proved: brute-force specification oracle over all labellings on a sample"
-OPEN_GOALS = ["superdtl_optimum (result = arg-min over species mappings x ALL labellings)", "canonical_suffices linked to gain/lca sets", "base_uspfs_optimum", "uspfs_sound"]
-LEVEL_TEXT = ("The unordered solver is modelled faithfully in Coq on top of machine-checked layers (Entry laws C16, evaluator = recount C06) and compared with the implementation at the level of "
-              "gain/LCA sets, every table value, and the ALL sets / ANY members of both variants; the optimality statement itself is not yet machine-checked for this solver and rests on "
-              "the correspondence plus a brute-force specification sample over every labelling between required and allowed content.")
-LEVEL_NOTE = ("Partial: theorems cover the layers the solver is built from, not yet its optimality. Trusted: Coq kernel, hand-written model, correspondence (differential testing), "
-              "the independent Python brute-force oracle.")
+TECHNIQUE = ("Coq proof: gain/LCA sets characterised, refinement of the faithful table to a clean recurrence over (species, kind), optimiser charge = evaluator charge inside the region, "
+             "optimality among canonical labellings, and canonicalisation lemma (any valid labelling can be made canonical at no greater cost) giving the optimum over ALL labellings; "
+             "model tied to the code by table-level correspondence")
+OPEN_GOALS: list = []
+LEVEL_TEXT = ("Machine-checked for all binary inputs and cost vectors in the region (the proofs need only spe + sloss <= dup + 2*floss, 0 <= floss, 0 <= sloss): the cost returned by SuperDTL is the minimum "
+              "over all valid species mappings and ALL family-set labellings in which each family is gained once at the LCA of its carriers; every returned solution is valid and attains it; "
+              "the base solver attains the minimum on the LCA mapping; ALL = exactly the optimal canonical solutions, ANY exactly one. "
+              "The model is compared with the code on gain/LCA sets, every table value, ALL sets and ANY members; a brute-force sample over every labelling runs on every check.")
+LEVEL_NOTE = ("Trusted: Coq kernel; hand-written model (correspondence = differential testing). No axioms. Theorems are about the code after fix D6. "
+              "Known finding F-COHERENCE outside the region (witness replayed).")
 
 
 def known_signature(f, kf):
